@@ -139,7 +139,8 @@ def cli_many(job):
         files.append(os.path.join(ind, f"bad{i}.cmake"))
         with open(files[-1], "w", encoding="utf-8") as f:
             f.write(text)
-    env = dict(os.environ, CMINXDIR=os.path.join(root, "cfg"), HOME=root, XDG_CONFIG_HOME=os.path.join(root, "cfg"))
+    env = dict(os.environ, CMINXDIR=os.path.join(root, "cfg"), HOME=root, XDG_CONFIG_HOME=os.path.join(root, "cfg"),
+               PWD=os.path.join(root, "cfg"))     # (PWD: a decoy inside the sandbox, never the harness's directory)
     code = CLI % common.REPO_SRC
     msgs = []
     out = os.path.join(root, "out")
@@ -221,7 +222,8 @@ def cli_case(job):
     for g in ("in/a_good.cmake", "in/z_good.cmake", "in/sub/deep.cmake"):
         with open(os.path.join(root, g), "w") as f:
             f.write(BASES["flat_sets"])
-    env = dict(os.environ, CMINXDIR=os.path.join(root, "cfg"), HOME=root, XDG_CONFIG_HOME=os.path.join(root, "cfg"))
+    env = dict(os.environ, CMINXDIR=os.path.join(root, "cfg"), HOME=root, XDG_CONFIG_HOME=os.path.join(root, "cfg"),
+               PWD=os.path.join(root, "cfg"))     # (PWD: a decoy inside the sandbox, never the harness's directory)
     msgs = []
     code = CLI % common.REPO_SRC
     with open(os.path.join(root, "debug.yaml"), "w") as f:
